@@ -244,6 +244,40 @@ func (o *oC04) Before(k *Kernel) {
 			k.Violate("C04", "finished-implies-captured", "finished-seed-capture-missing", fmt.Sprintf("row %s was deleted from the queue (reported finished) but the capture of %s (attempt %d, status %d, sha1 %s) is not in the WARC files left on disk", ex.Seed, ex.URL, ex.Attempt, ex.Status, ex.SHA1))
 		}
 	}
+	// a finished row whose origin answers a plain 200 (no fault planned for it or for its host) has a capture: the only party
+	// that could have failed that fetch is the crawler itself, e.g. by tearing it down at stop and reporting the seed finished
+	for v := range started {
+		if remaining[v] {
+			continue
+		}
+		key := uriKey(v)
+		res := r.sc.Site[key]
+		if res == nil || len(res.Resp) == 0 || res.Resp[0].Status != 200 || res.Resp[0].Fault != "" || res.Expect == scen.Never || res.Expect == scen.May {
+			continue
+		}
+		if hp := r.sc.Hosts[hostOfKey(key)]; hp != nil {
+			continue
+		}
+		discarded := false
+		for _, st := range r.sc.Cfg.DiscardStatus {
+			if st == 200 {
+				discarded = true
+			}
+		}
+		if discarded {
+			continue
+		}
+		found := false
+		for _, rec := range idx.Recs {
+			if rec.TargetKey == key && (rec.Type == "response" || rec.Type == "revisit") {
+				found = true
+			}
+		}
+		k.Probe("c04-finished-healthy-seeds-checked")
+		if !found {
+			k.Violate("C04", "finished-implies-captured", "finished-seed-without-any-capture", fmt.Sprintf("row %s was deleted from the queue (reported finished); its origin answers a plain 200 and no fault was injected for it, yet the WARC files hold no response record for it", v))
+		}
+	}
 	k.Probes["c04-finished-captures-checked"] = nChecked
 	k.Probes["c04-rows-left-by-first-process"] = len(rows)
 	for _, row := range rows {
@@ -315,6 +349,13 @@ func (o *oC04) OnEnd(k *Kernel) {
 		k.Violate("C04", "resumed", "row-left-claimed", fmt.Sprintf("after the restarted crawl drained and stopped gracefully, rows are still marked handed-out: %v", stranded))
 	}
 	o.r.summary["rows_after_restart"] = len(rows)
+}
+
+func hostOfKey(key string) string {
+	if i := strings.IndexByte(key, '/'); i >= 0 {
+		return key[:i]
+	}
+	return key
 }
 
 // ---------------------------------------------------------------- kill on the k-th WARC write
